@@ -338,6 +338,10 @@ Definition api_create_mtag (ph : N) (name type : tok) (posh : N) (now : Z) : M N
   check_name_type name type ;;;
   dup <- rd (fun s => in_group s (child s (ha p) (TS s_multi_tags)) name) ;;
   guard (negb dup) EDup ;;;
+  (* the positions setter refuses an array of another block; create_multi_tag then removes the
+     multi-tag it had started: as if refused before anything was created *)
+  ok <- rd (fun s => store_has_entity s (ha p) CDataArrays (ha pos)) ;;
+  guard ok ERuntime ;;;
   r <- entity_create_new (ha p) s_multi_tags name type now ;;
   wr (fun s => add_link s (fst r) (TS s_positions) (ha pos)) ;;;
   auto_touch_for c_MultiTag s_positions (fst r) now ;;;
@@ -348,15 +352,15 @@ Definition api_create_feature (th : N) (dh : N) (ltype : tok) (now : Z) : M N :=
   t <- the_handle th ;; d <- the_handle dh ;;
   guard (ekind_eqb (hk t) KTag || ekind_eqb (hk t) KMultiTag) EOther ;;;
   guard (ekind_eqb (hk d) KDataArray) EType ;;;
+  (* Feature.data setter's test; on refusal Feature.create_new removes the group it had made *)
+  ok <- rd (fun s => store_has_entity s (hown t) CDataArrays (ha d)) ;;
+  guard ok ERuntime ;;;
   id <- gen_id ;;
   ca <- wr_ret (fun s => ensure_group s (ha t) (TS s_features)) ;;
   a <- wr_ret (fun s => ensure_group s ca id) ;;
   wr (fun s => set_attr s a k_id (Some (AText id))) ;;;
   wr (fun s => set_attr s a s_link_type (Some (AText ltype))) ;;;
   auto_touch_for c_Feature s_link_type a now ;;;
-  (* Feature.data setter *)
-  ok <- rd (fun s => store_has_entity s (hown t) CDataArrays (ha d)) ;;
-  guard ok ERuntime ;;;
   wr (fun s => set_attr s a s_target_type (Some (AText (TS s_DataArray)))) ;;;
   wr (fun s => add_link s a (TS s_data) (ha d)) ;;;
   auto_touch_for c_Feature s_data a now ;;;
@@ -567,12 +571,19 @@ Definition api_set_link (ph : N) (r : rkind) (xh : option N) (now : Z) : M unit 
   | RPositions, Some x' =>
       x <- the_handle x' ;;
       guard (ekind_eqb (hk p) KMultiTag) EOther ;;;
+      (* MultiTag._check_data_array: a DataArray of the multi-tag's own block (membership by NAME + id) *)
+      guard (ekind_eqb (hk x) KDataArray) EType ;;;
+      ok <- rd (fun s => store_has_entity s (hown p) CDataArrays (ha x)) ;;
+      guard ok ERuntime ;;;
       wr (fun s => add_link s (ha p) (TS s_positions) (ha x)) ;;;
       auto_touch_for c_MultiTag s_positions (ha p) now
   | RPositions, None => guard (ekind_eqb (hk p) KMultiTag) EOther ;;; fail EType
   | RExtents, Some x' =>
       x <- the_handle x' ;;
       guard (ekind_eqb (hk p) KMultiTag) EOther ;;;
+      guard (ekind_eqb (hk x) KDataArray) EType ;;;
+      ok <- rd (fun s => store_has_entity s (hown p) CDataArrays (ha x)) ;;
+      guard ok ERuntime ;;;
       wr (fun s => add_link s (ha p) (TS s_extents) (ha x)) ;;;
       auto_touch_for c_MultiTag s_extents (ha p) now
   | RExtents, None =>
